@@ -126,6 +126,16 @@ def gen(rng, tier):
     # a run(until=t) that raised ('too slow', or a failure of the program): the caller either steps on, or simply issues
     # its next call
     case['rt']['after_error'] = rng.choice(['drain', 'next', 'next'])
+    if rng.random() < 1 / 300:
+        # a long, regular life: several thousand periods, each costing a trifle more wall time than it is worth, so
+        # that the lag creeps up by 1/4096 of a period per step until, in strict mode, it must be reported
+        case['setup'] = [{'k': 'proc', 'id': 'bt', 'ops': [{'op': 'beat', 'n': rng.randint(4300, 5200), 'd': 1,
+                                                             'w': 1 + 2.0 ** -12}]}]
+        case['shared'] = []
+        case['t0'] = 0
+        case['rt'] = {'factor': 1.0, 'strict': rng.random() < 0.7, 'tick': 0, 'mults': [1.0], 'pre_burn': 0, 'pre_sync': False,
+                      'drive': [], 'after_error': 'drain'}
+        case['long_rt'] = True
     return case
 
 
@@ -242,8 +252,9 @@ def run(case):
     strict = rt.get('strict', True)
     # reference: plain Environment, step loop
     ref = setup_world(case)
+    cap = 16000 if case.get('long_rt') else 4000
     n = 0
-    while n < 4000:
+    while n < cap:
         try:
             ref.env.step()
         except EmptySchedule:
@@ -280,7 +291,7 @@ def run(case):
         env.obs = obs
         plan = list(rt.get('drive') or []) + [['run']]
         for it in plan:
-            if obs.stop or obs.steps >= 4000:
+            if obs.stop or obs.steps >= cap:
                 break
             if it[0] == 'burn':
                 wall.burn(it[1])          # wall time passing between two calls of the driver
@@ -314,7 +325,7 @@ def run(case):
                     stats['run_until_abandoned'] = 1
                     if rt.get('after_error') == 'next':
                         done = True
-                while not done and not obs.stop and obs.steps < 4000:
+                while not done and not obs.stop and obs.steps < cap:
                     # an exception escaped run(until): go on stepping until its stop event ends the call
                     try:
                         env.step()
@@ -324,7 +335,7 @@ def run(case):
                         pass
             else:
                 k = it[1] if it[0] == 'steps' else 1 << 30
-                while k > 0 and not obs.stop and obs.steps < 4000:
+                while k > 0 and not obs.stop and obs.steps < cap:
                     k -= 1
                     try:
                         env.step()
